@@ -66,6 +66,7 @@ def record_case(n, pk, tr, rs, dc, dtype=np.float64):
 def run_tv(ctx, n_cases, max_len=800):
     from bycycle.cyclepoints import find_extrema, find_zerox
     cases = gen.corpus(ctx.seed * 1000 + 17, n_cases, max_len=max_len)
+    cases += gen.large_cases(ctx.seed * 1000 + 717, 2 if n_cases < 1000 else 6, 1 if n_cases < 1000 else 3)      # cycles of hundreds of samples; recordings beyond 2^15 samples
     recs, metas = [], []
     rng = np.random.default_rng(ctx.seed + 171)
     for i, c in enumerate(cases):
